@@ -19,6 +19,8 @@ C16 line-protocol driver.
                                                                             → `ok <hex>` | `panic` | `fuel`
   var <text> <n>                 `parseVariadic` on a token with that text and n import arguments
                                                                             → `no` | `yes <start> <end>`
+  dbind <dflt> <sites>           like `bind`, with `default_bind` global options <dflt> = bind,bind,… (a bind address `0`
+                                 stands for "no address": `default_bind { protocols … }`)
   bind <sites>                   site blocks `http://h<i>.test:8080 { bind … }` through the whole adapter: the
                                  servers' listen / listen_protocols / sites.  <sites> = site;site;…  site = `.` (no
                                  bind) | bind,bind,…  bind = addr+addr/prot+prot (`-` = no protocols block)
@@ -330,6 +332,14 @@ def handle : List String → String
         | some res => "|".intercalate ((insertionSort (fun (a b : Srv) => decide (a.name < b.name)) res).map showSrv)
       | none => "bad-op"
     | none => "bad-op"
+  | ["dbind", dflt, sites] =>
+    match (dflt.splitOn ",").mapM parseBind, parseBSites sites with
+    | some ds, some ss =>
+      if ss.length ≤ 10 && ds.length ≤ 4 then
+        "|".intercalate ((serversOfD "8080"
+          (some (ds.map fun b => ⟨b.addrs.map (fun a => if a == "0" then "" else a), b.prots⟩)) ss).map showBServer)
+      else "bad-op"
+    | _, _ => "bad-op"
   | ["bind", sites] =>
     match parseBSites sites with
     | some ss => if ss.length ≤ 10 then "|".intercalate ((serversOf "8080" ss).map showBServer) else "bad-op"
